@@ -1,8 +1,23 @@
-"""C13 kernels: raw primitive colliders (seed list; the C13 owner extends it)."""
+"""C13 kernels: raw primitive colliders of engine_collision_primitive.c / engine_collision_box.c.
+
+Translated (struct-pointer parameter `mjPreContact* con`: fields appear as con0_dist, con0_normal_k, con0_pos_k,
+con0_tangent_k results, and as inputs where a path leaves them unwritten):
+  mjraw_SphereSphere, mjraw_PlaneSphere, mjraw_SphereCapsule (inlines mjraw_SphereSphere and mju_clip),
+  mju_clampVec specialised to n = 3 (closest point of a box in its local frame: the core of mjraw_SphereBox).
+mju_makeFrame is in the shared list translate/kernels.py.
+
+Tried and refused by c2lean (covered by the engine oracle of checks/c13.py instead):
+  mjraw_CapsuleCapsule   parallel-axes branch indexes `con + n1` with a data-dependent offset
+  mjraw_SphereBox        `nearest[k/2]` with data-dependent k (and k is uninitialised on the path the translator explores)
+  mjraw_CapsuleBox       data-dependent indices / int-encoded case analysis
+  mjc_* wrappers         take mjModel* / mjData* (pointer-valued struct members)
+"""
 PRIM = "src/engine/engine_collision_primitive.c"
+BOX = "src/engine/engine_collision_box.c"
 KERNELS = [
     {"name": "mjraw_SphereSphere", "file": PRIM, "static": True},
     {"name": "mjraw_PlaneSphere", "file": PRIM, "static": True},
     {"name": "mjraw_SphereCapsule", "file": PRIM, "static": True},
+    {"name": "mju_clampVec", "file": BOX, "static": True, "fix": {"n": 3}, "lean": "mju_clampVec3"},
 ]
-INLINE_FILES = [PRIM]
+INLINE_FILES = [PRIM, BOX]
